@@ -7,6 +7,9 @@
   panic at every step where the code admits one.
 -/
 import Lungo.Proofs.ConcAll
+import Lungo.Proofs.ConcUnshared
+import Lungo.Proofs.ConcDeadlock
+import Lungo.Proofs.ConcClosed
 namespace Lungo.Conc.C16
 open Lungo.Conc
 
@@ -121,6 +124,83 @@ theorem starting_cleared {n : Nat} {s : State} (h : Reachable n s) (sid : SessId
   | none => simp [hst] at this
   | some a => exact ⟨a, (s2 a sid).1 hst⟩
 
+/-- `mutex_holder_enabled` (DESIGN: `mutex_sections_nonblocking`), configuration "no session is
+    used by two actors" (`ReachableU`: actor `a` only names session `a`): an actor holding `e.mutex`
+    always has an enabled next step — `e.mutex` critical sections never block. -/
+theorem mutex_holder_enabled {n : Nat} {s : State} {a : ActorId} (h : ReachableU n s)
+    (hm : s.eng.mutex = some a) : ∃ c s', step s a c = some s' :=
+  mutex_holder_enabled_aux h hm
+
+/-- … and the same statement is FALSE when a session is shared by two actors: the reachable state
+    `deadState` (session 5 used by actors 1 and 2; schedule `deadSched`) has actor 2 holding
+    `e.mutex` inside `Engine.Begin` waiting for `s.mutex` (sess.Transaction()), actor 1 holding
+    `s.mutex` inside `Session.AbortTransaction` waiting for `e.mutex` (Engine.Abort), the expiry
+    goroutine waiting for `e.mutex` — and NO step of any actor is enabled: the engine is wedged
+    (lock-order inversion e→s vs s→e; reproduced on the real code, see DESIGN §10 #13). -/
+theorem shared_session_deadlock :
+    ∃ s, Reachable 2 s ∧ s.eng.alive = true ∧ s.eng.mutex = some 2 ∧ (s.loc 2).pc = .bSessLock ∧
+      (s.sess 5).mutex = some 1 ∧ (s.loc 1).pc = .aLock ∧ ∀ (a : Nat) (c : Choice), step s a c = none :=
+  ⟨deadState, dead_reachable, dead_facts.2.2.2.2.2, dead_facts.1, dead_facts.2.1, dead_facts.2.2.1,
+    dead_facts.2.2.2.1, dead_stuck⟩
+
+/-- hence `mutex_holder_enabled` cannot be extended from `ReachableU` to `Reachable` -/
+theorem mutex_holder_enabled_fails_shared :
+    ¬ ∀ (n : Nat) (s : State) (a : ActorId), Reachable n s → s.eng.mutex = some a →
+        ∃ c s', step s a c = some s' := by
+  intro hall
+  obtain ⟨s, hr, _, hm, _, _, _, hstuck⟩ := shared_session_deadlock
+  obtain ⟨c, s', hs⟩ := hall 2 s 2 hr hm
+  rw [hstuck 2 c] at hs
+  cases hs
+
+/-- `closed_prompt` (1): once the engine is killed it stays killed -/
+theorem closed_stays_closed {n : Nat} {s s' : State} {a : ActorId} {c : Choice} (_h : Reachable n s)
+    (hd : s.eng.alive = false) (hs : step s a c = some s') : s'.eng.alive = false :=
+  alive_mono hd hs
+
+/-- `closed_prompt` (2): after `Close`'s kill step no call contains a blocking token acquire — the
+    `tomb dying` outcome of `token.Acquire` is enabled — and the expiry goroutine's select can
+    take its `Dying` arm. -/
+theorem closed_acquire_never_blocks {n : Nat} {s : State} {a : ActorId} (h : Reachable n s)
+    (hd : s.eng.alive = false) :
+    ((s.loc a).pc = .bAcquire → ∃ s', step s a .dying = some s') ∧
+    ((s.loc a).pc = .xWait → ∃ s', step s a .dying = some s') := by
+  have hr := (inv_reachable h).2.rng a
+  have hle : (s.loc a).pc ≠ .idle → ¬ a > s.n := fun hp hgt => hp (hr hgt)
+  constructor
+  · intro hp
+    have := hle (by simp [hp])
+    exact Option.isSome_iff_exists.mp (by simp [step, this, hp, stepBegin, hd])
+  · intro hp
+    have := hle (by simp [hp])
+    exact Option.isSome_iff_exists.mp (by simp [step, this, hp, stepExp, hd])
+
+/-- `closed_prompt` (3): after the kill step every step of an actor inside a call strictly decreases
+    `rank` (≤ 20), so every call returns within a bounded number of its own steps; the calls issued
+    after the kill return `ErrEngineClosed` from the first alive check.  The only non-decreasing
+    step is the expiry goroutine's `tick` (Go's select chooses randomly between a ready ticker and
+    `Dying`; each loop iteration fails with ErrEngineClosed and returns to the select).
+    Mutex acquisitions remain blocking steps, but their holders always progress
+    (`mutex_holder_enabled`), and `Release` still balances (`token_conservation` holds in every
+    reachable state, dead or alive). -/
+theorem closed_prompt {n : Nat} {s s' : State} {a : ActorId} {c : Choice} (_h : Reachable n s)
+    (hd : s.eng.alive = false) (hs : step s a c = some s') (hidle : (s.loc a).pc ≠ .idle)
+    (htick : c ≠ .tick) : rank (s'.loc a) < rank (s.loc a) ∧ rank (s.loc a) ≤ 20 := by
+  refine ⟨rank_decreases hd hs hidle htick, ?_⟩
+  simp only [rank]
+  cases (s.loc a).pc <;> cases (s.loc a).k <;> simp [rk, ar]
+
+/-- `closed_prompt` (4): a call issued after the kill returns the closed error at its first
+    alive check without touching the token: `Begin` from `bCheck`. -/
+theorem closed_begin_returns_closed {n : Nat} {s s' : State} {a : ActorId} (_h : Reachable n s)
+    (hd : s.eng.alive = false) (hp : (s.loc a).pc = .bCheck) (hs : step s a .go = some s') :
+    (s'.loc a).pc = .after ∧ (s'.loc a).res = .err .closed ∧ s'.eng.token = s.eng.token := by
+  have hle : ¬ a > s.n := by
+    intro hgt; simp [step, hgt] at hs
+  simp [step, hle, hp, stepBegin, hd] at hs
+  subst hs
+  simp [State.put, Local.back, Eng.unlock]
+
 /-! ### non-vacuity -/
 
 /-- one auto-commit write (acquire, callback, store, release, deferred abort) by actor 1 -/
@@ -145,4 +225,18 @@ example : ((run (init 2) sessOpen).map fun s =>
     (s.eng.token, s.eng.txn, (s.sess 1).txn, (s.sess 1).starting, (s.loc 1).pc)) =
     some (0, some 0, some 0, false, .idle) := by rfl
 
+/-- close while a writer waits for the token held by a session: the waiter is released with the
+    closed error and Close returns after the expiry goroutine exited -/
+def closeRun : List (ActorId × Choice) :=
+  sessOpen ++
+  [(2, .call (.useTx true none)), (2, .go), (2, .go),               -- 2 parked at the acquire
+   (1, .call .close), (1, .go), (1, .go), (1, .go),                   -- kill, close streams; Close waits
+   (2, .dying), (2, .go), (2, .go), (2, .go),                         -- 2: ErrEngineClosed
+   (0, .dying), (1, .go)]                                             -- expiry exits; Close returns
+
+example : ((run (init 2) closeRun).map fun s =>
+    (s.eng.alive, (s.loc 2).pc, (s.loc 2).res, (s.loc 1).pc, (s.loc 0).pc, s.eng.mutex)) =
+    some (false, .idle, .err .closed, .idle, .xExited, none) := by rfl
+
 end Lungo.Conc.C16
+
